@@ -16,3 +16,6 @@
  (#is-not? local))
 
 (member property: (property_name) @name) @reference.property
+
+((assignment right: (identifier) @name) @reference.variable
+ (#is-not? local))
